@@ -1,5 +1,6 @@
 import ScVerif.Base.Line
 import ScVerif.C02.Time
+import ScVerif.C02.Send
 /-!
 Driver handler for C02.  Messages are pairs of integers `a.b` (`durationpb.Duration{seconds, nanos}` on the
 Go side, the empty message is `0.0`), so that update masks can select one field and leave the other.
@@ -13,7 +14,8 @@ Request:  `run <fixed:0|1> <clock> <cands> <init> <progs> <sched>`
          `u/<id|g>/<V|C>/<expectAbsent>/<createIfAbsent>/<expect>/<check>/<f>/<mask>/<writeTime>` or
          `d/<id>/<allowMissing>/<expect>/<check>`
          id `g` = empty id + WithGenIDIfAbsent; expect `-` or `a.b`; check `n` | `eq<k>` | `ne<k>` on field a
-         (fails with OutOfRange); f `s<a>.<b>` (write a.b) | `a<k>` | `b<k>` (interceptor: field += k);
+         (fails with OutOfRange); f `s<a>.<b>` (write a.b) | `a<k>` | `b<k>` (interceptor: field += k) |
+         `x<k>` (the interceptor of `vendingpb.Model.DispenseInstantly`: a += k, b := max 0 (b - k));
          mask `-` (none) | `a` | `b` | `ab`, followed by `+` when an InterceptAfter sets field b of the result
          to the old b + 1; writeTime `-` or a number
 * sched  `-` or comma separated thread ids; one entry = one atomic step of that thread
@@ -24,6 +26,11 @@ with `rt` the steps (clock instants) at which each finished call was invoked and
 `lin` the linearization sequence of the theorem `C02_linearizable` (call `n` of thread `t`; refused calls of one
 index in the order they finished),
 r = `ok:<a.b>` | `ok:<a.b>#<generated id>` | `ok:nil` | `err:<Code>`, `@t` the stored change time.
+
+Request:  `send <rollback:0|1> <clock> <init> <progs> <psched>`: the publication layer (`Send.lean`, `prun` on the
+fixed code with the empty candidate script); `psched` entries are thread ids, followed by `!` when the step, if it is
+a publication, times out.  Answer: `T0=[r,...]|T1=[...]|store=id:a.b,...` with r as above, `err:Unknown` for a call
+whose publication timed out and `pending` for a call whose publication is still to be made.
 -/
 namespace ScVerif.C02
 open ScVerif.Line
@@ -52,6 +59,7 @@ def showErr : Err → String
   | .notFound => "NotFound"
   | .unavailable => "Unavailable"
   | .other 11 => "OutOfRange"
+  | .other 2 => "Unknown"
   | .other n => s!"Other{n}"
 
 def showRes (op : Op P) (res : Res P) : String :=
@@ -79,6 +87,9 @@ def parseWritten? (s : String) : Option (P → P) :=
   if s.startsWith "s" then (parseP? (s.drop 1).toString).map (fun v => fun _ => v)
   else if s.startsWith "a" then (parseInt? (s.drop 1).toString).map (fun k => fun o => ⟨o.a + k, o.b⟩)
   else if s.startsWith "b" then (parseInt? (s.drop 1).toString).map (fun k => fun o => ⟨o.a, o.b + k⟩)
+  -- `vendingpb.updateStock`: a dispense of `k` (used grows by `k`, remaining shrinks by `k` but not below zero)
+  else if s.startsWith "x" then
+    (parseInt? (s.drop 1).toString).map (fun k => fun o => ⟨o.a + k, if o.b - k < 0 then 0 else o.b - k⟩)
   else none
 
 /-- `FieldUpdater.Merge` under the update mask: masked fields come from the written message, the others stay -/
@@ -152,8 +163,33 @@ def showStore (c : Config P) : String :=
   ",".intercalate ((List.range 400).filterMap (fun i =>
     (absS c.store i).map (fun v => s!"{i}:{showP v}@{c.stamp i}")))
 
+def parsePSched? (s : String) : Option (List (Nat × Bool)) :=
+  if s = "-" || s = "" then some []
+  else (s.splitOn ",").mapM (fun e =>
+    if e.endsWith "!" then (parseNat? (e.dropEnd 1).toString).map (·, true) else (parseNat? e).map (·, false))
+
+def showStorePlain (c : Config P) : String :=
+  ",".intercalate ((List.range 400).filterMap (fun i => (absS c.store i).map (fun v => s!"{i}:{showP v}")))
+
+def handleSend (rollback : Bool) (clock : Nat → Nat) (init : List (Nat × P)) (progs : List (List (Op P)))
+    (psched : List (Nat × Bool)) : String :=
+  let s₀ : SStore P := fun i => (init.find? (fun kv => kv.1 == i)).map (·.2)
+  let env : Env := ⟨clock, candOf []⟩
+  let pc := prun rollback true env (pinit s₀ (fun t => progs.getD t [])) psched
+  let ths := (List.range progs.length).map (fun t =>
+    s!"T{t}=[" ++ ",".intercalate ((List.range (pc.core.threads t).done.length).map (fun n =>
+      match reported pc t n, (pc.core.threads t).done[n]? with
+      | some res, some r => showRes r.op res
+      | _, _ => "pending")) ++ "]")
+  "|".intercalate ths ++ s!"|store={showStorePlain pc.core}"
+
 def handle (toks : List String) : String :=
   match toks with
+  | ["send", rollback, clock, init, progs, psched] =>
+    match parseBool? rollback, parseClock? clock, parseInit? init, (progs.splitOn "|").mapM parseProg?,
+        parsePSched? psched with
+    | some rollback, some clock, some init, some progs, some psched => handleSend rollback clock init progs psched
+    | _, _, _, _, _ => "!bad-op"
   | ["run", fixed, clock, cands, init, progs, sched] =>
     match parseBool? fixed, parseClock? clock, parseNats? cands, parseInit? init,
         (progs.splitOn "|").mapM parseProg?, parseNats? sched with
